@@ -753,10 +753,51 @@ pub fn run_c03(tier: Tier) -> Report {
         r.run_lockstep("streams-side-by-side", &mixed);
         rep.add_nontrivial(mixed.len() as u64);
     }
+    // ---- mixed header histories in standard mode (all sub-QCIF, so the format value never changes):
+    // predicted pictures with assorted macroblock kinds and vectors that wrap, after a reference of
+    // another header kind - plain PTYPE after PLUSPTYPE with and without unrestricted vectors,
+    // PLUSPTYPE after plain PTYPE - and chains of three
+    {
+        let sq_plus = |inter: bool, tr: u8, umv: bool| -> Hdr {
+            let mut h = StdHdr::custom(128, 96, inter, tr, 6);
+            let pl = h.plus.as_mut().unwrap();
+            pl.opp.srcfmt = 1;
+            if umv {
+                pl.opp.modes |= 0x200;
+                pl.uui = 1;
+            }
+            Hdr::Std(h)
+        };
+        let plain = |inter: bool, tr: u8| Hdr::Std(StdHdr::baseline(1, inter, tr, 6));
+        let p_of = |hdr: Hdr, salt: usize| -> Pic {
+            let specs: Vec<Spec> = (0..48usize)
+                .map(|i| match (i + salt) % 7 {
+                    0 => Spec::NotCoded,
+                    1 => Spec::Intra,
+                    2 => Spec::Inter4V([VECS[i % 8], VECS[(i + 3) % 8], VECS[(i + 5) % 8], VECS[(i + 6) % 8]], false),
+                    3 => Spec::Inter((-30, 29), false),
+                    _ => Spec::Inter(VECS[(i + salt) % 8], i % 4 == 1),
+                })
+                .collect();
+            let mut p = Pic { hdr, mbs: mbs_for(&specs, 8, false, true) };
+            fix_last_flags(&mut p);
+            p
+        };
+        let mut cases = vec![];
+        for k in 0..6usize {
+            for umv in [true, false] {
+                cases.push(vec![noise_intra(sq_plus(false, 0, umv), seed ^ 0xA1), p_of(plain(true, 1), k)]);
+                cases.push(vec![noise_intra(sq_plus(false, 0, umv), seed ^ 0xA2), p_of(plain(true, 1), k), p_of(plain(true, 2), k + 1)]);
+            }
+            cases.push(vec![noise_intra(plain(false, 0), seed ^ 0xA3), p_of(sq_plus(true, 1, false), k), p_of(plain(true, 2), k + 2)]);
+        }
+        r.run("mixed-header-histories", &cases);
+        rep.add_nontrivial(cases.len() as u64);
+    }
 
     r.finish();
     rep.set_rule(
-        "P/D pictures as syntax trees over LCG-noise reference pictures, decoded by H263State and by the reference decoder (median prediction, wrap, chroma vector, bilinear half-sample, edge clamp, residual add/clip): all 7^n macroblock-kind assignments on 5 grids; every differential (64x64) on single-macroblock pictures of each size class and on the interior macroblock of 48x48 x 3 residual kinds; truncation after every macroblock and at every byte; no-reference rejection (complete pictures, and every early-ended prefix of all-intra / mixed / all-inter pictures incl. the bare header); residual clipping; every ordered pair of ways to signal one picture size between the reference and the predicted picture; every ordered pair of 17 colliding sizes as histories I(A)[,P(A)|D(A)],I(B),[D(B),]P(B); some forty of these streams and six standard-mode streams decoded in turn by their own decoders on one thread; \
+        "P/D pictures as syntax trees over LCG-noise reference pictures, decoded by H263State and by the reference decoder (median prediction, wrap, chroma vector, bilinear half-sample, edge clamp, residual add/clip): all 7^n macroblock-kind assignments on 5 grids; every differential (64x64) on single-macroblock pictures of each size class and on the interior macroblock of 48x48 x 3 residual kinds; truncation after every macroblock and at every byte; no-reference rejection (complete pictures, and every early-ended prefix of all-intra / mixed / all-inter pictures incl. the bare header); residual clipping; every ordered pair of ways to signal one picture size between the reference and the predicted picture; every ordered pair of 17 colliding sizes as histories I(A)[,P(A)|D(A)],I(B),[D(B),]P(B); some forty of these streams and six standard-mode streams decoded in turn by their own decoders on one thread; thirty standard-mode histories mixing PLUSPTYPE (with / without unrestricted vectors) and plain-PTYPE pictures; \
          non-trivial = sequence whose predicted picture has a non-zero vector or a residual",
     );
     rep.sample(json!({"sweep": "mb-types", "picture": "32x32 [Inter4VQ, NotCoded, IntraQ, Inter] over a noise reference"}));
